@@ -14,6 +14,7 @@ def run(chk, binp, prop, n, extra=(), timeout=900, seed_offset=0):
     os.makedirs(os.path.join(C.REPLAYS, "fonts"), exist_ok=True)
     os.environ["RBV_DUMP_DIR"] = os.path.join(C.REPLAYS, "fonts")
     C.ENV["RBV_DUMP_DIR"] = os.path.join(C.REPLAYS, "fonts")
+    timeout = max(timeout, 300 + int(n) // 100)   # deep (thorough) runs on a loaded machine
     rc, out, err = C.run_rbv(binp, ["e2e", prop.lower(), "--seed", chk.seed + seed_offset, "--n", n, "--trace", trace] + list(extra), timeout=timeout)
     fails = []
     summary = {}
